@@ -40,8 +40,12 @@ func c06After(l *l1, info *stepInfo) ([]string, bool, *mismatch) {
 }
 
 func TestC06(t *testing.T) {
-	p := kit.ProfileIndex
 	rapid.Check(t, func(t *rapid.T) {
+		p := kit.ProfileIndex
+		if rapid.IntRange(0, 2).Draw(t, "refheavy") == 0 {
+			// indexes over reference columns: values change by pruning and garbage collection too
+			p.Refs, p.MinTables, p.ScalarBias = 5, 2, 2
+		}
 		runHistory(t, "C06", p, cfgC06, 20, c06After)
 	})
 }
